@@ -79,9 +79,11 @@ def audit(case, seq, data: bytes) -> list[tuple[str, str]]:
         for r in fr["rows"]:
             if r["kind"] != "options":
                 rows_size += len(r["raw"])
+    sent: dict = {"name": [], "prefix": [], "datatype": []}
     for a in dec.audit:
         k = a["kind"]
         if k in ("name", "prefix", "datatype"):
+            sent[k].append(a.get("value"))
             if a.get("resident"):
                 fails.append(("resident-entry-resent",
                               f"{k} entry {a['value']!r} sent while resident (row {a['frame']}/{a['row']})"))
@@ -110,6 +112,17 @@ def audit(case, seq, data: bytes) -> list[tuple[str, str]]:
                         fails.append(("repeat-not-elided",
                                       f"statement {st_i} slot {slot} equals the previous one but is sent"))
             st_i += 1
+    # a table declared large enough for every distinct string of the stream: each sent once
+    declared = {"name": dec.options["max_name_table_size"],
+                "prefix": dec.options["max_prefix_table_size"],
+                "datatype": dec.options["max_datatype_table_size"]}
+    for k, vals in sent.items():
+        if len(set(vals)) <= declared[k] and len(vals) != len(set(vals)):
+            dup = next(v for v in vals if vals.count(v) > 1)
+            fails.append(("sent-more-than-once",
+                          f"the {k} table is declared with {declared[k]} slots, the stream has "
+                          f"{len(set(vals))} distinct {k} strings, yet {dup!r} is sent "
+                          f"{vals.count(dup)} times ({len(vals)} entry rows in all)"))
     if rdflib_api:
         # rdflib hands its statements over in its own order; what was handed over is what the
         # stream decodes to, and terms that decode to the same strings are equal rdflib terms
